@@ -326,6 +326,15 @@ func phraseCase(r *vh.Run, name, phrase string, tags ...string) {
 	} else if want == "ok" {
 		c.Oracle("seedfromphrase-rejects-valid-phrase", "SeedFromPhrase(%q): %v", phrase, err)
 	}
+	// the result may not depend on what the destination held before (a wallet opened twice, a retry
+	// after a rejected phrase): the same call into a buffer full of ones
+	var dirty [32]byte
+	for i := range dirty {
+		dirty[i] = 0xFF
+	}
+	if err2 := wallet.SeedFromPhrase(&dirty, phrase); (err2 == nil) != (err == nil) || (err == nil && dirty != seed) {
+		c.Oracle("seedfromphrase-depends-on-destination-content", "SeedFromPhrase(%q) into a zeroed buffer: %x / %v; into a buffer of 0xFF bytes: %x / %v", phrase, seed, err, dirty, err2)
+	}
 	c.Op(strings.TrimSpace(fmt.Sprintf("seedp %d %s", h0, cpsStr(phrase))), sline)
 	c.Tags = append(c.Tags, "result:"+strings.ReplaceAll(want, " ", "-"))
 	r.Add(c)
